@@ -32,6 +32,14 @@ CLAIMS = {
   text="TLC-generated terms (all operators, quantifier shapes incl. shadowing, custom/composite sorts, Boolean terms nested in theory terms) are analysed by the real oracles; TLC validates free symbols, atoms, qf-ness, sorts, and all six size measures against the structural definitions in SmtSyntaxFns.tla, plus the two semantic consequences (value depends only on reported free symbols; truth is a function of reported atoms) with Eval.",
   note="SmtSyntaxFns.tla definitions; semantic consequences over bounded interpretations",
   tech=TECH + "TLC-generated terms analysed by pySMT oracles, reports validated by TLC against structural definitions and Eval", ref="DESIGN.md 3 C12"),
+ "C10": dict(
+  text="TLC enumerates Boolean structure over theory atoms (depth <= 3, all connectives in both polarities, constants, binders over Bool / BV / Int incl. nested, shadowing, free-and-bound), arithmetic terms and equality conjunctions; nnf, prenex, aig, TimesDistributor, the partitions, propagate_toplevel and both Boolean quantifier eliminators are run and every result is validated by TLC against RewriteContract: equivalence under every interpretation (Eval; Bool/BV binders exact) plus the advertised shape predicates of NormalForms.tla.",
+  note="NormalForms.tla shape predicates; Int binders over three finite domains; interpretations bounded by carriers",
+  tech=TECH + "TLC-enumerated formulas rewritten by pySMT, results validated by TLC for equivalence (Eval) and shape", ref="DESIGN.md 3 C10"),
+ "C11": dict(
+  text="TLC enumerates quantifier-free Boolean structure (constants in every position, ite/iff, shared sub-formulas) and UF formulas with nested/repeated applications; cnf, cnf_as_set, PolarityCNFizer and Ackermannizer outputs are validated by TLC: shape (IsCNF / NoUF) and the two-way model correspondence with fresh symbols enumerated exhaustively and, for Ackermannization, function tables read off the ack constants.",
+  note="fresh-symbol space enumerated up to 4096 combinations; original symbols over bounded carriers",
+  tech=TECH + "TLC-enumerated formulas converted by pySMT, model-by-model equisatisfiability validated by TLC with Eval", ref="DESIGN.md 3 C11"),
 }
 NA_REASON = "check under construction in this round (planned with the same TLA+/TLC technique, see DESIGN.md)"
 
